@@ -78,7 +78,7 @@ func (c01) Shrink(raw json.RawMessage) []json.RawMessage {
 		for _, k := range sortedKeys(p.Schema) {
 			q := p
 			q.Schema = models.IndexSchema{}
-			for k2, v := range p.Schema {
+			for k2, v := range detRange(p.Schema) {
 				if k2 != k {
 					q.Schema[k2] = v
 				}
@@ -100,7 +100,7 @@ func sameIDSet(a, b []uuid.UUID) bool {
 	for _, x := range b {
 		m[x]--
 	}
-	for _, v := range m {
+	for _, v := range detRange(m) {
 		if v != 0 {
 			return false
 		}
